@@ -85,11 +85,8 @@ func (self *Analyzer) analyzeFnAnnotation(annotation pAst.AnnotationItem, fnIden
 			List: []ast.AnalyzedCallArgument{},
 		}
 
-		if triggerFound {
-			if trigger.CallbackFnType.ReturnType == nil {
-				panic("trigger return type is <nil>")
-			}
-
+		// A trigger without a type is the placeholder of an import which has already been reported as an error
+		if triggerFound && trigger.CallbackFnType.ReturnType != nil {
 			if err := self.TypeCheck(
 				callbackFnType.SetSpan(callbackFn.IdentSpan),
 				trigger.CallbackFnType.SetSpanAdvanced(ann.TriggerSource.Span(), ann.TriggerSource.Span()),
